@@ -3,7 +3,7 @@ import os
 import random
 import multiprocessing
 from concurrent.futures import ProcessPoolExecutor
-from harness import stil_gen as sg, stil_corr as sc, circgen as cg, stil_text as st
+from harness import stil_gen as sg, stil_corr as sc, circgen as cg, stil_text as st, stil_maps_src as sms
 from vcheck import core
 
 THEOREMS = ['C18_scan_load_position', 'C18_scan_unload_position', 'C18_pi_group_position', 'C18_po_group_position',
@@ -14,6 +14,8 @@ THEOREMS = ['C18_scan_load_position', 'C18_scan_unload_position', 'C18_pi_group_
             'C18_text_transform_core', 'C18_text_ignored_irrelevant', 'C18_text_parse_print', 'C18_text_chain_as_written',
             'C18_text_group_as_written', 'C18_text_calls_as_written', 'C18_text_scan_load_position', 'C18_text_scan_unload_position',
             'C18_text_pi_group_position', 'C18_text_po_group_position']
+# source tie (translation): Gen/StilMapsSrc.v (StilFile._maps) = Model/Stil.v maps_gen true
+THEOREMS += ['C18_maps_source_is_model', 'C18_maps_source_nonvacuous']
 CHUNK = 12
 
 
@@ -61,7 +63,15 @@ def run(ck):
                  (os.path.join(tdir, 'b15_2ig.tf_nf.stil.gz'), os.path.join(tdir, 'b15_2ig.v.gz'), True)]
     pool = ProcessPoolExecutor(2, mp_context=multiprocessing.get_context('fork'))
     real_futs = [pool.submit(_real, j) for j in real_jobs]
-    ck.prove('C18', THEOREMS)
+    # translation (tie T): Gen/StilMapsSrc.v is regenerated from the current text of stil.py; C18_maps_source_is_model then re-proves that the
+    # translated StilFile._maps is the hand model maps_gen true the position / inversion theorems are stated on
+    src_ok = sms.translate(ck)
+    proved, _ = ck.prove('C18', THEOREMS)
+    if not proved:
+        core.coq_make(core.support_targets())     # the models must exist for the correspondence even when a proof broke
+        if src_ok:
+            core.coq_make(['theories/Gen/StilMapsSrc.vo'])
+    src_cases, src_meta = [], []
     rng = random.Random(ck.seed * 7919 + 18)
     fails, cases, meta = [], [], []
     tcases, tmeta, tfails = [], [], []
@@ -122,6 +132,8 @@ def run(ck):
                        'tests': [sc.mv_chars(x) for x in (obs.get('tests') or [])][:2]})
         cases.append(sc.coq_case(s, c, obs))
         meta.append(desc)
+        src_cases.append(sms.case(s, c))
+        src_meta.append(desc)
     # ---- TEXT level: lark (contextual lexer + LALR parser) + StilTransformer + StilFile.__init__ raises against parse_stil / stil_domain ----
     for _ in range(ck.scale(420, 9000)):
         cs, d, of = st.small_case(rng)
@@ -182,6 +194,22 @@ def run(ck):
                                                "'DFF' filter) on every case: defect D8 is still present" if pinned else
                                                (f'; pinned-tree model fails on {len(bad0)} cases' if bad else '')) +
                   ('' if ran else '; a cases file did not compile: ' + next((o for ok, o in outs if not ok), '')[-600:]))
+    sbad, sran = [], True
+    if src_ok:
+        per = 60
+        souts = ck.coq_eval_many('stilsrc', [sms.cases_file(src_cases[k:k + per]) for k in range(0, len(src_cases), per)], jobs=12)
+        for ci, (ok, out) in enumerate(souts):
+            lst = cg.parse_nat_list(out) if ok else None
+            if lst is None:
+                sran = False
+                sbad.append(('coqc', out[-600:]))
+            else:
+                sbad += [ci * per + j for j in lst]
+        n_raise = sum(1 for x in src_cases if x.endswith(' None'))
+        ck.obligation(f'translated source Gen/StilMapsSrc.v = StilFile._maps on {len(src_cases)} real StilFile x Circuit objects (the generated STIL '
+                      f'files incl. edge cases; objects and results written as the Python values they are): interface, pi_map, po_map, scan_maps '
+                      f'and scan_inversions listings incl. key order; raises iff the implementation raises ({n_raise} raising cases)',
+                      sran and not sbad and len(src_cases) > 0, 'correspondence', f'failing cases {sbad[:8]}')
     ck.rule('generated scan designs (1-3 chains, random cell order, random "!" placements incl. runs and chain ends, upper/lower-case '
             'flip-flop kinds, non-scan flip-flops, latches, shuffled port/node order) x shuffled signal groups x pattern sets '
             '(load_unload+capture; launch/capture with and without clock pulses; launch_capture names; wrapped strings) rendered as '
@@ -225,6 +253,10 @@ def run(ck):
                 {'component': 'Model/StilText.v / stil.GRAMMAR, StilTransformer',
                  'input': min((tmeta[b] for b in tbad if b < len(tmeta)), key=lambda d: len(d['text']), default=None),
                  'failing_texts': len(tbad)}, found_input=False)
+    if not fails and sbad:
+        first = sbad[0] if isinstance(sbad[0], int) else None
+        ck.fail('source-disagrees', 'translated source of StilFile._maps and implementation disagree', {'component': 'Gen/StilMapsSrc.v',
+                'input': src_meta[first] if first is not None else None, 'where': str(sbad)[:500]}, found_input=False)
     if not fails and (bad or not ran):
         ck.fail('model-disagrees', 'Coq model and implementation disagree', {'component': 'Model/Stil.v',
                                                                             'input': meta[bad[0]] if bad else None}, found_input=False)
